@@ -118,10 +118,30 @@ class Classifier:
             if isinstance(v, ast.Call) and isinstance(v.func, ast.Attribute) and self.buffer and is_name(v.func.value, self.buffer):
                 if v.func.attr == "append" and len(v.args) == 1:
                     return ("@append", self.buffer, self.expr(v.args[0]))
+                if v.func.attr == "extend" and len(v.args) == 1 and isinstance(v.args[0], (ast.List, ast.Tuple)):
+                    return ("@append*", self.buffer, tuple(self.expr(x) for x in v.args[0].elts))
                 return "UNKNOWN"
+        if isinstance(st, ast.AugAssign) and self.buffer and is_name(st.target, self.buffer):
+            if isinstance(st.op, ast.Add) and isinstance(st.value, (ast.List, ast.Tuple)):
+                return ("@append*", self.buffer, tuple(self.expr(x) for x in st.value.elts))
+            return "UNKNOWN"
         if isinstance(st, ast.Return) and st.value is not None:
             return "UNKNOWN"
         return None
+
+
+def _buffer_items(x, buf):
+    """expressions a statement node puts into the buffered list: buf.append(e), buf.extend([e..]), buf += [e..]"""
+    if not buf:
+        return []
+    if isinstance(x, ast.Call) and isinstance(x.func, ast.Attribute) and is_name(x.func.value, buf):
+        if x.func.attr == "append" and len(x.args) == 1:
+            return [x.args[0]]
+        if x.func.attr == "extend" and len(x.args) == 1 and isinstance(x.args[0], (ast.List, ast.Tuple)):
+            return list(x.args[0].elts)
+    if isinstance(x, ast.AugAssign) and is_name(x.target, buf) and isinstance(x.value, (ast.List, ast.Tuple)):
+        return list(x.value.elts)
+    return []
 
 
 def run(cx):
@@ -191,8 +211,9 @@ def run(cx):
                 letters.add(cl.expr(x.value))
             elif isinstance(x, ast.YieldFrom):
                 letters.add(cl.expr(x.value))
-            elif isinstance(x, ast.Call) and isinstance(x.func, ast.Attribute) and buf and is_name(x.func.value, buf) and x.func.attr == "append":
-                letters.add(cl.expr(x.args[0]))
+            else:
+                for e_ in _buffer_items(x, buf):
+                    letters.add(cl.expr(e_))
         if not (letters & {"S", "V", "KEY"}):
             continue
         n_loops += 1
@@ -212,16 +233,8 @@ def run(cx):
             cx.ob("R11b", loop, src_ok, "list elements iterate the container itself (or a filter-free comprehension over it)" if src_ok else
                   f"list elements iterate {norm(loop.iter)}: elements may be dropped, duplicated or reordered")
         # the value event depends on the loop variable
-        for x in ast.walk(loop):
-            e = None
-            if isinstance(x, ast.Yield) and x.value is not None:
-                e = x.value
-            elif isinstance(x, ast.YieldFrom):
-                e = x.value
-            elif isinstance(x, ast.Call) and isinstance(x.func, ast.Attribute) and buf and is_name(x.func.value, buf) and x.func.attr == "append":
-                e = x.args[0]
-            if e is None:
-                continue
+        for x, e in [(x, e) for x in ast.walk(loop) for e in (
+                [x.value] if isinstance(x, ast.Yield) and x.value is not None else [x.value] if isinstance(x, ast.YieldFrom) else _buffer_items(x, buf))]:
             L = cl.expr(e)
             if L in ("S", "V", "KEY"):
                 used = names_in(e) & set(tv)
